@@ -396,36 +396,44 @@ def rule_parallel(repo: Repo, rep: Report) -> int:
                 return True
         return False
 
-    cleaned_at: Dict[str, int] = {}
-    for s in stmts_of(fi.body):
-        if isinstance(s, ast.Assign) and len(s.targets) == 1 and isinstance(s.targets[0], ast.Name) and iterates_declared(s.value):
-            if all(s.lineno > lp.end_lineno for lp in comp_loops):
-                cleaned_at[s.targets[0].id] = s.lineno
-    # propagate taint through plain copies made after the loops
-    changed = True
-    derived: Dict[str, ast.AST] = dict(tainted)
-    while changed:
-        changed = False
-        for s in stmts_of(fi.body):
-            if isinstance(s, ast.Assign) and len(s.targets) == 1 and isinstance(s.targets[0], ast.Name) and s.targets[0].id not in derived:
-                if not iterates_declared(s.value) and any(isinstance(x, ast.Name) and x.id in derived for x in ast.walk(s.value)):
-                    derived[s.targets[0].id] = s
-                    changed = True
+    # forward scan (source order) of the assignments after the completion loops: a name is
+    # *completion-ordered* at a line if its latest definition before that line is tainted
+    last_loop_end = max([lp.end_lineno for lp in comp_loops], default=0)
+    defs: List[tuple] = []  # (lineno, name, tainted?, stmt)
+    for nm, st in tainted.items():
+        defs.append((st.lineno, nm, True, st))
 
-    def order_tainted_use(expr: ast.AST, lineno: int) -> Optional[str]:
-        """Name of a completion-ordered container whose *order* flows into expr."""
+    def state_at(name: str, lineno: int):
+        best = None
+        for (ln, nm, tn, st) in defs:
+            if nm == name and ln < lineno and (best is None or ln >= best[0]):
+                best = (ln, tn, st)
+        return best
+
+    def uses_tainted(expr: ast.AST, lineno: int) -> Optional[str]:
         if iterates_declared(expr):
             return None
         for x in ast.walk(expr):
-            if isinstance(x, ast.Name) and x.id in derived:
-                if x.id in cleaned_at and cleaned_at[x.id] < lineno:
+            if isinstance(x, ast.Name):
+                stt = state_at(x.id, lineno)
+                if stt is None or not stt[1]:
                     continue
-                # keyed access container[name] does not depend on order
                 par = getattr(x, "_parent", None)
                 if isinstance(par, ast.Subscript) and par.value is x:
-                    continue
+                    continue  # keyed access does not depend on order
                 return x.id
         return None
+
+    later = sorted([s for s in stmts_of(fi.body) if isinstance(s, ast.Assign) and len(s.targets) == 1 and isinstance(s.targets[0], ast.Name) and s.lineno > last_loop_end], key=lambda s: s.lineno)
+    for s in later:
+        nm = s.targets[0].id
+        src = uses_tainted(s.value, s.lineno)
+        defs.append((s.lineno, nm, src is not None, s))
+
+    def order_tainted_use(expr: ast.AST, lineno: int) -> Optional[str]:
+        return uses_tainted(expr, lineno)
+
+    derived = {nm: st for (ln, nm, tn, st) in defs if tn}
 
     sinks = []
     for c in ast.walk(fi.node):
